@@ -638,8 +638,9 @@ impl Engine for C07 {
         }
         seam::disarm();
         let _ = std::fs::remove_dir_all(env.scratch.join("c07"));
-        let (steps, switches, log, switch_sites, diverged) =
-            ts.with_state(|st| (st.steps, st.switches, st.log.clone(), st.switch_sites.clone(), st.diverged));
+        let (steps, switches, log, switch_sites, diverged, stolen) =
+            ts.with_state(|st| (st.steps, st.switches, st.log.clone(), st.switch_sites.clone(), st.diverged, st.stolen));
+        res.stats.probe_n("token_handed_on_because_holder_blocked_in_os_lock", stolen);
         res.stats.steps = steps;
         res.stats.switches = switches;
         if diverged > 0 {
